@@ -296,8 +296,14 @@ def _quotient(ctx, model):
     # Rational.reciprocal swaps
     r = model.nodes.get("Rational")
     mem = r.cls.members.get("reciprocal")
-    ok = mem is not None and ast.unparse(mem.node.body[-1]).replace(" ", "") == \
-        "returnRational(self.Denominator,self.Numerator)"
+    ok = False
+    if mem is not None:
+        from ..rules import sole_result
+        sp = ("param", mem.node.args.args[0].arg)
+        rv_ = sole_result(mem.node, plain=True)
+        ok = rv_ is not None and rv_[0] == "call" and rv_[1] == "Rational" and \
+            rv_[2] in ((("attr", sp, "Denominator"), ("attr", sp, "Numerator")),
+                       (("attr", sp, "denominator"), ("attr", sp, "numerator")))
     ctx.ob("P/Rational.reciprocal", ok, r.cls.loc(),
            "reciprocal swaps numerator and denominator" if ok else
            "Rational.reciprocal does not swap numerator and denominator")
